@@ -128,7 +128,16 @@ func (fr *Frame) applyCall(instr ssa.Instruction, cc *ssa.CallCommon, recv Val, 
 		sig := under(cc.Value.Type()).(*types.Signature)
 		if c := fr.funcValueContract(cc.Value); c != nil {
 			fr.oblige(st, "nil", exprLabel(fr, cc.Value)+"()", Ne(recv.L[0], Int(0)), pos)
+			// a function loaded from a struct field: the struct is visible to the contract as "owner"
+			fr.ownerVal = nil
+			if u, ok := cc.Value.(*ssa.UnOp); ok {
+				if fa, ok := u.X.(*ssa.FieldAddr); ok {
+					ov := ex.val(fr, fa.X, st)
+					fr.ownerVal = &ov
+				}
+			}
 			st2, vals := fr.applyContract(c, c.Func, sig, nil, args, st, pos)
+			fr.ownerVal = nil
 			bind(vals, rt)
 			return st2
 		}
@@ -544,6 +553,9 @@ func (fr *Frame) applyContract(c *Contract, key string, sig *types.Signature, re
 	}
 	if c.ThisAlias && sig.Recv() != nil && len(all) > 0 {
 		env.vars["this"] = all[0]
+	}
+	if fr.ownerVal != nil {
+		env.vars["owner"] = *fr.ownerVal
 	}
 	fr.callOrd[key]++
 	ord := fr.callOrd[key]
